@@ -54,6 +54,12 @@ def jobs(tier, seed):
                 for k in (0, 126, 127):
                     for reloc in (False, True):
                         out.append({"id": f"{rom}/{mn}/{w}{k}/{'reloc' if reloc else 'plain'}", "rom": rom, "mn": mn, "kind": w, "k": k, "reloc": reloc})
+        # code whose run address flows from the last ROM bank below work RAM (0x7D) into 0x7E: a
+        # branch back to a label before the border then runs from RAM
+        for mn in (label_mns[:1] if tier == "quick" else label_mns) if rom == "high" else ():
+            for reloc in (False, True):
+                for k in (6, 40):
+                    out.append({"id": f"{rom}/{mn}/cross{k}/{'reloc' if reloc else 'plain'}", "rom": rom, "mn": mn, "kind": "cross", "k": k, "reloc": reloc})
     return out
 
 
@@ -88,17 +94,23 @@ def run(spec, cx):
     pt = cx.t("p")
     rom_ok = lorom_is_rom(pt) if spec["rom"] == "low" else hirom_is_rom(pt)
     base = 0x8000 if spec["rom"] == "low" else 0
-    cx.assume(z3.And(rom_ok, (pt & 0xFFFF) >= base, (pt & 0xFFFF) <= 0xFFF0 - 512))
+    cross = spec["kind"] == "cross"
+    if cross and not spec["reloc"]:
+        cx.assume(z3.And((pt >> 16) == 0x7D, (pt & 0xFFFF) >= 0xFF00))
+    else:
+        cx.assume(z3.And(rom_ok, (pt & 0xFFFF) >= base, (pt & 0xFFFF) <= 0xFFF0 - 512))
     syms = {"p": p}
     src = "*= p\n"
     if spec["reloc"]:
         syms["r"] = cx.int("r", 0, 0xFFFFFF)
         src += "@= r\n"
+        if cross:
+            cx.assume(z3.And((cx.t("r") >> 16) == 0x7D, (cx.t("r") & 0xFFFF) >= 0xFF00))
     mn = spec["mn"]
     if spec["kind"] == "sym":
         syms["t"] = cx.int("t", 0, 0xFFFFFF)
         src += f"{mn} t\n"
-    elif spec["kind"] == "back":
+    elif spec["kind"] in ("back", "cross"):
         src += "target:\n" + filler(spec["k"]) + f"{mn} target\n"
     elif spec["kind"] in WRAPPED:
         src += wrapped_source(spec["kind"], mn, spec["k"])[0]
@@ -127,6 +139,22 @@ def check_wrapped(spec, cx, out, R0, isrom, base):
     return [("encodes-true-displacement", z3.Implies(run_ok, z3.And(*conds))), ("ram-branch-rejected", z3.Not(ram))]
 
 
+def check_cross(spec, out, R0):
+    """R0 in bank 0x7D, offset >= 0xFF00: label at R0, k filler bytes, branch at R0 + k."""
+    k = spec["k"]
+    off = R0 & 0xFFFF
+    stays = off + k + 2 <= 0xFFFF           # the whole program runs inside bank 0x7D
+    in_ram = off + k > 0xFFFF               # the branch opcode itself runs from 0x7E....
+    if out[0] != "ok":
+        return [("in-range-branch-is-encoded", z3.Not(stays))]
+    blocks = out[1]
+    if len(blocks) != 1 or len(blocks[0][1]) != k + 2:
+        return [("emits-exactly-the-branch", z3.Not(z3.Or(stays, in_ram)))]
+    bs = blist(blocks[0][1])
+    return [("encodes-true-displacement", z3.Implies(stays, z3.And(bs[-2] == BRANCHES[spec["mn"]], bs[-1] == ((-(k + 2)) & 0xFF)))),
+            ("ram-branch-rejected", z3.Not(in_ram))]
+
+
 def check(spec, cx, out):
     rom = spec["rom"]
     isrom = lorom_is_rom if rom == "low" else hirom_is_rom
@@ -136,6 +164,8 @@ def check(spec, cx, out):
     kind, k = spec["kind"], spec.get("k", 0)
     if kind in WRAPPED:
         return check_wrapped(spec, cx, out, R0, isrom, base)
+    if kind == "cross":
+        return check_cross(spec, out, R0)
     if kind == "sym":
         R, t = R0, cx.t("t")
     elif kind == "back":
